@@ -58,6 +58,8 @@ def run(prog, chk):
     rng_discipline(prog, chk)
     output_order(prog, chk)
     reviewed_hash_loop_commutes(prog, chk)
+    from props import C07
+    C07.static_state(prog, chk)  # "repeating it in the same process": nothing a transform writes outlives it
 
 
 # ---------------------------------------------------------------------------
